@@ -12,6 +12,14 @@ T={
 'C13':("ruleProcessPoints loops over conditions outside and points inside","one batch from a matching node with two or more points that flip one condition away from and back to its state before the batch","rule:"),
 'C15':("ReplaceIDs translates a node-id reference only when the referenced node has been met earlier in the walk","node-id point that refers to a node later in the exported tree (forward reference)","import:reference-not-following-id-map"),
 'C18':("address range test rewritten as a 16-bit wrap-around test (address+quantity < address)","request whose last item is address 0xFFFF exactly (address+quantity = 0x10000)","modbus-server:exception-for-valid-request"),
+'C04':("edgePoints no longer writes meta.root_id in the transaction that inserts the root edge; only initRoot's last UPDATE records it","process death after the root-edge commit and before that UPDATE (first-time initialisation, or a root replacement)","crash:"),
+'C10':("DiffPoints skips zero-valued fields of the old struct when a pointer-to-struct becomes nil","*struct going from non-nil to nil while one of its fields holds the zero value","config:diffmerge-mismatch"),
+'C11':("tombstone test in the slice/array loop of SetValue written as %2 == 1 (false for negative odd counts)","point with tombstone -1, -3, ... whose index lies at or beyond the length of the target","decode-panic:"),
+'C12':("Point.ToPb / PbToPoint moved to timestamppb, splitting UnixNano() with / and %","time before 1970 with a fractional second, or outside 1678..2262","wire:"),
+'C14':("activeForTime caches the day's windows on the schedule value, keyed by the date in the instant's own zone","one schedule value evaluated at two non-UTC instants that share a local date and fall on different UTC days","schedule:wrong-in-a-sequence-of-calls"),
+'C16':("Read strips leading delimiters from every device read before appending it to the leftover","device read that begins with the closing delimiter of a frame partly buffered from an earlier read","cobs:chunking-loses-frames"),
+'C17':("SerialEncode copies the subject into the first 15 bytes of the 16-byte field","subject of exactly 16 bytes","serial:header-changed"),
+'C19':("RegsToInt32SwapWords rewritten with shifts; the low word is sign-extended before the OR","swapped word order, low word with bit 15 set, high word other than 0xFFFF","modbus-conv:RegsToInt32SwapWords"),
 'C03':("updateHashHelper skips an edge it has already updated during the same write instead of XOR-ing the delta in once per path","node placed under several parents that share an ancestor (any mirror or diamond): the delta must cancel at the common ancestor","hash:"),
 'C20':("","","concurrency:"),
 }
